@@ -131,6 +131,13 @@ class TaskTypestate:
                     if st[n] in (PEND, MAYBE):
                         st[n] = DOC
             return
+        if nm in ("result", "exception") and isinstance(e.func, ast.Attribute) and isinstance(e.func.value, ast.Name) and e.func.value.id in st and not e.args:
+            v = e.func.value.id
+            if st[v] in (CANC, DOC):
+                self.finding(getattr(e, "lineno", 0), v, f"{nm}() of a task that may have been cancelled raises CancelledError (a BaseException) out of the coroutine")
+            elif st[v] in (PEND, MAYBE):
+                self.finding(getattr(e, "lineno", 0), v, f"{nm}() of a task that may still be pending raises InvalidStateError")
+            return
         if nm in ("done", "cancelled", "result", "exception", "add_done_callback", "debug", "info", "warning", "error", "is_set", "set", "clear", "close"):
             return
         # any other callee that receives a handle (or a task created in the argument itself): ownership moves to code outside this typestate
@@ -155,6 +162,12 @@ class TaskTypestate:
         t = test
         if isinstance(t, ast.UnaryOp) and isinstance(t.op, ast.Not):
             neg, t = True, t.operand
+        if isinstance(t, ast.Call) and call_name(t) == "cancelled" and isinstance(t.func, ast.Attribute) and isinstance(t.func.value, ast.Name) and t.func.value.id in st:
+            v = t.func.value.id
+            is_canc = (branch and not neg) or (not branch and neg)
+            if st[v] == DOC:
+                st[v] = CANC if is_canc else DONE
+            return st
         if isinstance(t, ast.Call) and call_name(t) == "done" and isinstance(t.func, ast.Attribute) and isinstance(t.func.value, ast.Name) and t.func.value.id in st:
             v = t.func.value.id
             is_done = (branch and not neg) or (not branch and neg)
